@@ -385,7 +385,11 @@ pub fn drive<E: Engine>(engine: &E, args: &Args) -> i32 {
     "runs_per_hour": per_hour,
     "seeds": format!("derive({}, \"{}\", 0..{})", seed, engine.name(), batch.runs),
     "stopped_by_budget": batch.timed_out,
-    "simulated_time": {"unit": "logical steps (the core has no timers)", "steps": st.get("steps")},
+    "simulated_time": if st.get("sim_millis") > 0 {
+      json!({"unit": "simulated milliseconds on tokio's paused clock (summed over requests) and logical steps", "simulated_ms": st.get("sim_millis"), "steps": st.get("steps") + st.get("sim_steps_concurrent")})
+    } else {
+      json!({"unit": "logical steps (no timers in this part of the system)", "steps": st.get("steps")})
+    },
     "faults_fired": st.prefixed("fault."),
     "crash_images": st.prefixed("image."),
     "operations": st.prefixed("op."),
